@@ -16,6 +16,10 @@ type Step struct {
 	NoReply  bool   `json:"no_reply,omitempty"` // do not wait for a reply stanza (e.g. after "done")
 	DelayMs  int    `json:"delay_ms,omitempty"` // sleep before sending
 	Bytewise bool   `json:"bytewise,omitempty"` // write and flush one byte at a time
+	// SplitAt > 0: write Send[:SplitAt], sleep SplitDelayMs, then write the rest
+	// (a plugin that pauses in the middle of a message)
+	SplitAt      int `json:"split_at,omitempty"`
+	SplitDelayMs int `json:"split_delay_ms,omitempty"`
 }
 
 type Script struct {
